@@ -75,7 +75,7 @@ Proof.
   - intros x. unfold read_string, check_cell, size. rewrite Edata, Gt. reflexivity.
   - intros x. unfold read_pointer, check_cell, size. rewrite Edata, Gp; [reflexivity|]. unfold cs_cells. rewrite Ec. intros [].
   - intros x. unfold read_labels, check_cell, size. rewrite Edata, Gl. reflexivity.
-  - apply find_agree_of_maps; [exact (wf_label_keys a WF) | exact N3 | exact Gl].
+  - apply find_agree_all; [exact (wf_label_keys a WF) | exact N3 | exact Gl].
 Qed.
 
 (* ------------------------------------------------------------------ the text writer's archives are in C01's domain *)
@@ -174,7 +174,7 @@ Proof.
   - intros x. unfold read_string, check_cell, size. rewrite Hd, Gt. reflexivity.
   - intros x. unfold read_pointer, check_cell, size. rewrite Hd, Gp. reflexivity.
   - intros x. unfold read_labels, check_cell, size. rewrite Hd, Gl. reflexivity.
-  - apply find_agree_of_maps; [exact Hk | exact N3 | exact Gl].
+  - apply find_agree_all; [exact Hk | exact N3 | exact Gl].
 Qed.
 
 (* ------------------------------------------------------------------ the text reader on ANY conforming file *)
@@ -198,4 +198,42 @@ Proof.
   rewrite <- (from_archive_text_image fmt e t Hw). apply from_archive_congr.
   - exact Hd.
   - intros x. unfold read_labels, check_cell, size. cbn [content_archive a_data a_labels]. rewrite Hd, Hl. reflexivity.
+Qed.
+
+(* ------------------------------------------------------------------ the layout, stated on the FILE through [conforms] *)
+(* what C01's serialize_conforms publishes for an archive without annotated cells is the archive itself *)
+Lemma plain_published a : plain_labelled a ->
+  c_data (published a) = a_data a /\ c_labels (published a) = a_labels a /\ c_text (published a) = [] /\ c_ptrs (published a) = [].
+Proof.
+  intros P. pose proof (plain_labelled_wf a P) as WF. destruct P as (Et & Ep & Ec & _).
+  destruct (published_data_len a WF) as (L1 & _ & L3). specialize (L3 Ec).
+  split; [|split; [reflexivity | split]].
+  - apply nth_error_eq_ext.
+    + unfold size, lenN in *. lia.
+    + intros i Hi. apply published_data_outside; [exact WF | unfold size, lenN; lia |].
+      unfold cells, cs_cells. rewrite Et, Ep, Ec. intros c [].
+  - cbn [published c_text]. exact Et.
+  - cbn [published c_ptrs]. rewrite Ep. unfold cs_ptrs, cs_run, cs_sorted. rewrite Ec. reflexivity.
+Qed.
+
+(* the image of a text archive conforms to the bin-archive FORMAT RELATION (Proofs/BinFormatSpec.v, written from the format
+   description independently of serialize and from_bytes) with a content whose data region is the title cell followed by
+   the message cells and whose label map puts exactly [key] on every message offset: "in the file every message starts on a
+   4-byte boundary and carries its key as the label of that address", without going through the model's own parser *)
+Theorem text_layout_conforms m fmt e t : wf_text_bytes fmt e t ->
+  exists f c, TextFormat.serialize m fmt e t = Ok f /\ wfb f /\ conforms e f c /\
+    c_ptrs c = [] /\ c_text c = [] /\
+    c_data c = a_data (TextFormatWrite.text_image fmt e t) /\ c_labels c = a_labels (TextFormatWrite.text_image fmt e t) /\
+    forall i k msg, nth_error (t_entries t) i = Some (k, msg) ->
+      let off := entry_offset fmt t i in
+      off mod 4 = 0 /\ am_get off (c_labels c) = Some [k] /\ sliceN off (lenN (cell fmt msg)) (c_data c) = Some (cell fmt msg).
+Proof.
+  intros Hb. pose proof (text_image_plain fmt e t Hb) as P.
+  destruct (serialize_conforms m _ (plain_labelled_wf _ P) (plain_labelled_fits _ P)) as (f & Hs & Hw & Hc).
+  destruct (plain_published _ P) as (Pd & Pl & Pt & Pp).
+  exists f, (published (TextFormatWrite.text_image fmt e t)).
+  split; [unfold TextFormat.serialize; rewrite TextFormatWrite.build_archive_spec; cbn [bind]; exact Hs|].
+  split; [exact Hw|]. split; [exact Hc|]. split; [exact Pp|]. split; [exact Pt|]. split; [exact Pd|]. split; [exact Pl|].
+  intros i k msg Hn. destruct (TextFormatRoundTrip.text_image_layout fmt e t i k msg Hn) as (H1 & H2 & H3 & _).
+  split; [exact H1|]. rewrite Pl, Pd. split; assumption.
 Qed.
